@@ -8,8 +8,29 @@ TEXT = json.load(open(os.path.join(ROOT, "tools", "manifest_text.json")))
 ids = [f"C{i:02d}" for i in range(1, 16)]
 claimed = [i for i in ids if i in PROPS]
 checks = []
+TRUSTED = ("Trusted base: Lean 4 kernel (axioms used: propext, Classical.choice, Quot.sound; no sorry, no native_decide, no axioms of our own), "
+           "tools/extract.py (translator for constants, tables and the lock shape) with its bridging lemmas, the harness and the differential "
+           "correspondence (tools/check.py), the Lean compiler/runtime for the driver; dependency crates are modelled, not verified.")
+USE_PARTIAL = {"C01", "C02", "C03", "C04", "C07", "C08", "C09", "C12"}
+def texts(i):
+    t = TEXT[i]; p = PROPS[i]
+    partial = p.get("partial", "")
+    names = ", ".join(x.split(".")[-1] for x in p["theorems"])
+    if i in USE_PARTIAL and partial:
+        text = f"Lean 4 theorems HC.{i}.* ({names}) over the executable model of the crate, tied to the code by the byte-exact correspondence run and the generated bridging lemmas. " + partial
+        cut = -1
+        for key in ("Not proved", "Not yet proved"):
+            k = partial.find(key)
+            if k >= 0: cut = k if cut < 0 else min(cut, k)
+        note = ("Partial. " + partial[cut:] + " " if cut >= 0 else "") + TRUSTED
+    else:
+        text = t["text"] + (" Theorems: " + names + ". " + partial if partial else " Theorems: " + names + ".")
+        note = t["note"] + " " + TRUSTED
+    if p.get("assumptions"): note += " Assumptions: " + "; ".join(p["assumptions"]) + "."
+    return text, note
 for i in claimed:
-    t = TEXT[i]
+    t = dict(TEXT[i])
+    t["text"], t["note"] = texts(i)
     checks.append({
         "property_id": i, "quick_cmd": f"bin/check {i} quick", "thorough_cmd": f"bin/check {i} thorough",
         "evidence_file": f"/verif/evidence/{i}.json", "replay_cmd_template": f"bin/check {i} quick --replay {{path}}",
